@@ -170,6 +170,23 @@ def rand_desc(rng, d=None, n_dt=None, n_c=None, n_n=None, basis=None, features=N
     if 'repeat' in features and n_dt > 1:
         g = rng.integers(0, n_dt - 1)
         c_coeffs[:, g + 1] = c_coeffs[:, g]
+    if 'near_repeat' in features and n_dt > 1:
+        # two consecutive segments of exactly equal duration whose (strong) control amplitudes
+        # differ by a few parts per million: "equal within tolerance" is not "equal"
+        g = int(rng.integers(0, n_dt - 1))
+        amp = rng.uniform(60, 300)/max(np.linalg.norm(c_coeffs[:, g]), 1e-3)
+        c_coeffs[:, g] *= amp
+        c_coeffs[:, g + 1] = c_coeffs[:, g]*(1 + rng.uniform(2e-6, 9e-6)*rng.choice([-1.0, 1.0]))
+        dt[g + 1] = dt[g] = rng.uniform(0.3, 1.5)
+    if 'full_rotation' in features:
+        # a segment (not the last one if there are several) whose level splitting times its duration
+        # is an exact non-zero multiple of 2 pi: the segment propagator has a degenerate phase
+        # although the Hamiltonian is not degenerate (for d = 2 it is -1 or +1)
+        g = int(rng.integers(0, max(n_dt - 1, 1)))
+        lam = np.linalg.eigvalsh(np.einsum('ijk,i->jk', c_opers, c_coeffs[:, g]))
+        gaps = [x for x in np.subtract.outer(lam, lam).ravel() if x > 1e-3]
+        if gaps:
+            dt[g] = 2*np.pi*int(rng.integers(1, 3))/float(rng.choice(gaps))
     n_opers = []
     for a in range(n_n):
         tl = 'nontraceless_nop' not in features
@@ -195,8 +212,19 @@ def rand_desc(rng, d=None, n_dt=None, n_c=None, n_n=None, basis=None, features=N
                 basis=basis, features=sorted(features))
 
 
+def rescale_time(desc, lam):
+    """the same pulse in another unit of time: durations times lam, control amplitudes divided by lam
+    (angles, propagators and everything dimensionless unchanged)"""
+    dd = dict(desc)
+    dd['c_coeffs'] = np.asarray(desc['c_coeffs'], dtype=float)/lam
+    dd['dt'] = np.asarray(desc['dt'], dtype=float)*lam
+    dd['features'] = sorted(set(desc['features']) | {'time_unit'})
+    return dd
+
+
 FEATURES = ['idle', 'zero_dt', 'repeat', 'big_angle', 'wide_dt', 'degenerate', 'commuting',
-            'zero_nop', 'nontraceless_nop', 'neg_sens', 'structured', 'cancel_sens']
+            'zero_nop', 'nontraceless_nop', 'neg_sens', 'structured', 'cancel_sens', 'near_repeat',
+            'full_rotation']
 
 
 def rand_features(rng, p=0.25, pool=None):
@@ -204,10 +232,37 @@ def rand_features(rng, p=0.25, pool=None):
     return [f for f in pool if rng.random() < p]
 
 
+def _coeff_container(c, form):
+    """the same numbers in another admissible container: Python ints, a float32 array, a list"""
+    if form == 'int':
+        return [int(round(float(x))) for x in c]
+    if form == 'f32':
+        return np.asarray(c, dtype=np.float32)
+    if form == 'list':
+        return [float(x) for x in c]
+    return np.array(c)
+
+
+def set_coeff_form(desc, form, which=('c_coeffs',)):
+    """switch the container in which `build` hands the coefficients to the constructor; the values
+    in the description are made exactly representable in it"""
+    dd = dict(desc)
+    for key in which:
+        v = np.asarray(desc[key], dtype=float)
+        if form == 'int':
+            v = np.round(2*v)
+        elif form == 'f32':
+            v = v.astype(np.float32).astype(float)
+        dd[key] = v
+        dd[key + '_form'] = form
+    dd['features'] = sorted(set(desc['features']) | {'coeffs_as_' + form})
+    return dd
+
+
 def build(desc, basis=True):
-    H_c = [[np.array(o), np.array(c), i] for o, c, i in
+    H_c = [[np.array(o), _coeff_container(c, desc.get('c_coeffs_form')), i] for o, c, i in
            zip(desc['c_opers'], desc['c_coeffs'], desc['c_ids'])]
-    H_n = [[np.array(o), np.array(c), i] for o, c, i in
+    H_n = [[np.array(o), _coeff_container(c, desc.get('n_coeffs_form')), i] for o, c, i in
            zip(desc['n_opers'], desc['n_coeffs'], desc['n_ids'])]
     if basis and desc.get('basis') is not None:
         return ff.PulseSequence(H_c, H_n, np.array(desc['dt']), make_basis(desc['basis'], desc['d']))
